@@ -150,7 +150,8 @@ def make_case(tier, seed, index):
     case = {"kind": "random", "framing": fr, "cmd": cmd, "pclass": cl, "pseed": rnd.randrange(1 << 16),
             "comm_addr": rnd.randrange(256), "trailing": trailing, "timeout": tau, "retries": r,
             "keep_alive": rnd.random() < 0.5, "faults": faults, "by_name": rnd.random() < 0.25,
-            "answer_addr": rnd.choice([None, None, None, 0x00, 0x01, 0x7F, 0xF7, 0xFF, rnd.randrange(256)])}
+            "answer_addr": rnd.choice([None, None, None, 0x00, 0x01, 0x7F, 0xF7, 0xFF, rnd.randrange(256)]),
+            "aa55_len": rnd.choice([None, 0, 1, 8, 40, 255, rnd.randrange(256)])}
     if fr in ("rtu", "tcp") and not faults and not trailing and rnd.random() < 0.4:
         # history: an EARLIER read on the same object lost the tail of its fragmented answer (and succeeded on the
         # retry); the missing tail had exactly the length of this request's conforming answer
@@ -200,6 +201,10 @@ def run_case(case):
     elif op == "aa55read":
         served = payload_bytes(case["pclass"], 2 * cmd["count"], case["pseed"])
         dev.set_aa55_bytes(cmd["reg"], served)
+        if case.get("aa55_len") is not None and all(f["k"] in ("ok", "dup", "drop") for f in case["faults"]):
+            # "payload length 0..255": the answer's own length byte rules, not the requested count
+            served = payload_bytes(case["pclass"], case["aa55_len"], case["pseed"])
+            dev.aa55_read_payload = served
     faults = [dict(f) for f in case["faults"]]
     # resolve symbolic split point; append trailing bytes to the RTU answer
     alen = None
